@@ -25,7 +25,7 @@ def run(r):
     r.assumptions += [
         "arrays satisfy length(data) = product(shape) (C05; premise wf)",
         "kernel_eq_generic / box_kernel_eq / exec_rows_atom_eq: exact equality when every mapped axis is non-empty, for arrays of any rank (also below the nesting depth); over an empty mapped axis only the leading lengths are claimed (kernel_empty_lead; the property's carve-out)",
-        "kernels under theorems: identity, reverse, first, last, deshape, fix, box (and any blockwise kernel through blockwise_generic); transpose, sort, classify, pervasives, reduce at depth (fast_reduce, generic_reduce_inner), scan, table and the dyadic fast paths are covered by the tie (transpose, sort, pervasives, reduce) and the search only",
+        "kernels under theorems: identity, reverse, transpose, first, last, deshape, fix, box, and the typed reduction at a depth (fast_reduce: at depth d = d nested rows of the depth-0 reduction kernel, any blockwise kernel through blockwise_generic); that the depth-0 reduction kernel equals the left fold of the definition, sort, classify, pervasives, generic_reduce_inner, scan, table and the dyadic fast paths are covered by the tie (reduce, sort, pervasives) and the search only",
         "the *_refuted_pre theorems are records about the model of the code BEFORE the fix commits 73cdc70, f64950a, 3374592, 68a793c, 09b3e8b (flag pre = true); the current model (pre = false) is what the tie compares",
         "routing specs over Model/Exec.v: the operands' frame behaviour (Frame.sig_sound) is a premise",
         "fork / bracket with a pack of n functions: Model/Exec.v carries the 2-function forms only; the n-ary laws are proved of Model/RoutePack.v (operands as pure argument->output maps) and connected to the implementation by the search only; subscripted both/on/by/with/off, dip/gap chains, backward and self are search only",
